@@ -143,6 +143,44 @@ func runKex(k kexSpec) (o kexOut) {
 	return o
 }
 
+// signVerify signs a payload, checks that the signature verifies with the right key, that an altered payload and the
+// other thread's key do not, and that a Mac0 round trip works.
+func signVerify(alg, role string, i int) (msg string) {
+	defer func() {
+		if p := recover(); p != nil {
+			if fmt.Sprintf("%T", p) == "zzvsync.abortSignal" {
+				panic(p)
+			}
+			msg = fmt.Sprintf("panic: %v", p)
+		}
+	}()
+	key := keys.Get(alg, role)
+	other := keys.Get(alg, "stranger")
+	payload := []byte(fmt.Sprintf("signed by thread %d", i))
+	s := cose.Sign1[[]byte, []byte]{Payload: cbor.NewByteWrap(payload)}
+	if err := s.Sign(key, nil, nil, nil); err != nil {
+		return "Sign: " + err.Error()
+	}
+	b, err := cbor.Marshal(s.Tag())
+	if err != nil {
+		return "marshal: " + err.Error()
+	}
+	var t cose.Sign1Tag[[]byte, []byte]
+	if err := cbor.Unmarshal(b, &t); err != nil {
+		return "unmarshal: " + err.Error()
+	}
+	if ok, err := t.Verify(key.Public(), nil, nil); err != nil || !ok {
+		return fmt.Sprintf("own signature does not verify: ok=%v err=%v", ok, err)
+	}
+	if ok, _ := t.Verify(other.Public(), nil, nil); ok {
+		return "signature verifies with another key"
+	}
+	if !bytes.Equal(t.Payload.Val, payload) {
+		return fmt.Sprintf("payload %q after the round trip, signed %q", t.Payload.Val, payload)
+	}
+	return ""
+}
+
 var kexPairs = [][2]kexSpec{
 	{{kex.ECDH256Suite, kex.A128GcmCipher, 10}, {kex.ECDH256Suite, kex.A256GcmCipher, 20}},
 	{{kex.ECDH256Suite, kex.A128GcmCipher, 10}, {kex.ECDH384Suite, kex.CoseAes256CbcCipher, 30}},
@@ -430,6 +468,39 @@ func scenarios(thorough bool) []scenario {
 						v = append(v, [2]string{"kex-sides-disagree", fmt.Sprintf("exchange %d (%s/%d) run next to another exchange: owner SEK %x SVK %x, device SEK %x SVK %x", i, pair[i].Suite, pair[i].Cipher, g.OwnerSEK, g.OwnerSVK, g.DevSEK, g.DevSVK)})
 					case !bytes.Equal(g.Plain, mustCBOR(want)):
 						v = append(v, [2]string{"kex-tunnel-garbles", fmt.Sprintf("exchange %d: decrypted %q, sent %q", i, g.Plain, want)})
+					}
+				}
+				return vres, v, fmt.Sprintf("%v", len(v) == 0)
+			}})
+	}
+	// two threads signing and verifying COSE_Sign1 objects with different keys and algorithms
+	type signer struct {
+		alg  string
+		role string
+	}
+	signPairs := [][2]signer{{{"ec256", "device"}, {"ec384", "device2"}}, {{"rsa2048", "device"}, {"ec256", "device2"}}}
+	for pi, sp := range signPairs {
+		if !thorough && pi > 0 {
+			break
+		}
+		out = append(out, scenario{Name: fmt.Sprintf("sign-pair %s || %s", sp[0].alg, sp[1].alg), Bound: 2,
+			run: func(choose vsync.Chooser) (vsync.Result, [][2]string, string) {
+				var errs [2]string
+				vsync.StmtYields = true
+				vres := vsync.Run(choose, 400000, func() {
+					var fs []func()
+					for i := range sp {
+						fs = append(fs, func() { errs[i] = signVerify(sp[i].alg, sp[i].role, i) })
+					}
+					joinThreads(fs...)
+				})
+				var v [][2]string
+				if len(vres.Panics) > 0 || vres.Deadlock || vres.Livelock {
+					return vres, nil, "aborted"
+				}
+				for i, e := range errs {
+					if e != "" {
+						v = append(v, [2]string{"sign-fails-next-to-another", fmt.Sprintf("thread %d (%s): %s", i, sp[i].alg, e)})
 					}
 				}
 				return vres, v, fmt.Sprintf("%v", len(v) == 0)
@@ -769,7 +840,7 @@ func main() {
 		schedulesShard(shard, n, tier == "thorough").Emit()
 	}
 	r = ev.Start("C19", "model_checking")
-	r.Rule("(K) two complete key exchanges (owner and device side, one encrypted message) as two threads with a scheduling point before EVERY statement of internal/nistkdf and kex (source rewritten at check time): all interleavings with at most 2 preemptions for the first suite/cipher pair and 1 for two more (thorough: 3 for the first, 2 for four more); each exchange must derive exactly the keys it derives alone. (S) 2 (thorough up to 3) devices against one manufacturer, rendezvous and owner server: DI||DI, TO0||TO0, TO1||TO1 (at most 3, thorough 5 deviations), TO2||TO2 with voucher replacement (1, thorough 2) and TO2||TO2||DI with mixed key types (1), delay-bounded: every departure from the default run-to-block order, preemption or not, counts as one deviation; scheduling points at every store call and every synchronisation operation of the device pipeline (thorough: one TO2||TO2 scenario also at every kex/nistkdf statement); consecutive executions continue from the state the previous one left (the owner resells the device to itself). Oracle: nobody fails, credential and stored voucher agree per device, each device module received exactly its own payload and each owner module its own echo. (F) TO2 with the transport failing at message k for k in 5..10 (thorough 2..12), all schedules of the device's threads with at most 2 deviations (thorough 3 for k=6,9): no deadlock, no panic, every thread ends (a thread left blocked for ever counts as deadlock). (R) auxiliary free-running pass: the same onboarding bodies for 2..16 (thorough ..64) devices as real goroutines in a -race binary with several GOMAXPROCS; a race report with go-fdo frames is a violation.")
+	r.Rule("(K) two complete key exchanges (owner and device side, one encrypted message) as two threads, and two threads signing and verifying COSE_Sign1 objects, with a scheduling point before EVERY statement of internal/nistkdf, kex and cose (source rewritten at check time): all interleavings with at most 2 preemptions for the first suite/cipher pair and 1 for two more (thorough: 3 for the first, 2 for four more); each exchange must derive exactly the keys it derives alone. (S) 2 (thorough up to 3) devices against one manufacturer, rendezvous and owner server: DI||DI, TO0||TO0, TO1||TO1 (at most 3, thorough 5 deviations), TO2||TO2 with voucher replacement (1, thorough 2) and TO2||TO2||DI with mixed key types (1), delay-bounded: every departure from the default run-to-block order, preemption or not, counts as one deviation; scheduling points at every store call and every synchronisation operation of the device pipeline (thorough: one TO2||TO2 scenario also at every kex/nistkdf statement); consecutive executions continue from the state the previous one left (the owner resells the device to itself). Oracle: nobody fails, credential and stored voucher agree per device, each device module received exactly its own payload and each owner module its own echo. (F) TO2 with the transport failing at message k for k in 5..10 (thorough 2..12), all schedules of the device's threads with at most 2 deviations (thorough 3 for k=6,9): no deadlock, no panic, every thread ends (a thread left blocked for ever counts as deadlock). (R) auxiliary free-running pass: the same onboarding bodies for 2..16 (thorough ..64) devices as real goroutines in a -race binary with several GOMAXPROCS; a race report with go-fdo frames is a violation.")
 	if r.Replay != "" {
 		replay(r.Replay)
 		return
